@@ -67,10 +67,11 @@ Lemma agree_assert_done i : agree (assert_done true i) (assert_done false i).
 Proof.
   unfold assert_done. apply agree_bind; [apply agree_refl|]. intros s0.
   destruct (sc_max (get_sc s0 i)) as [mx|]; [|apply agree_refl].
+  destruct (sc_obs (get_sc s0 i)); [apply agree_refl|].
   apply agree_bind; [apply agree_refl|]. intros _.
   destruct (_ =? _); [apply agree_refl|].
-  intros s. cbn [fail]. left. unfold bind, emit.
-  destruct (consume _ s) as [[trc sc_] oc].
+  intros s. cbn [fail]. left. unfold bind at 1. unfold emit.
+  match goal with |- context [bind ?m ?f s] => destruct (bind m f s) as [[trc sc_] oc] end.
   eexists [], trc, sc_, _. split; [|left; reflexivity].
   destruct oc; reflexivity.
 Qed.
@@ -90,13 +91,13 @@ Proof.
   - destruct Hm as [(pre & rest & s'' & o'' & E & O)|E].
     + left. rewrite E.
       destruct o'' as [a|e2| |k|]; try (eexists pre, rest, s'', _; split; [reflexivity|exact O]).
-      destruct e2 as [p0 tn v src|c v b|c v val b|c|cc|rs cc]; try (eexists pre, rest, s'', _; split; [reflexivity|exact O]).
+      destruct e2 as [p0 tn v src|c v b|c v val b|c|cc|rs cc|mp me mf]; try (eexists pre, rest, s'', _; split; [reflexivity|exact O]).
       cbn [orb]. destruct (negb (existsb (Nat.eqb (si_id c)) ids)); [eexists pre, rest, s'', _; split; [reflexivity|exact O]|].
       destruct (h2 s'') as [[tr3 s3] o3].
       exists pre, (rest ++ Wn (EExceeded c v b) :: tr3), s3, o3. split; [|exact O].
       rewrite <- ?app_assoc. cbn [app]. rewrite <- ?app_assoc. reflexivity.
     + rewrite E.
-      destruct e as [p0 tn v src|c v b|c v val b|c|cc|rs cc]; try (right; reflexivity).
+      destruct e as [p0 tn v src|c v b|c v val b|c|cc|rs cc|mp me mf]; try (right; reflexivity).
       cbn [orb]. destruct (negb (existsb (Nat.eqb (si_id c)) ids)); [right; reflexivity|].
       left. destruct (h2 s1) as [[tr3 s3] o3]. exists [], tr3, s3, o3. split; [reflexivity|left; reflexivity].
   - rewrite Hm. reflexivity.
@@ -112,6 +113,7 @@ Proof.
   - apply agree_set_constraint.
   - apply agree_assert_done.
   - apply agree_catch; assumption.
+  - intros s. cbn. left. eexists [], [], s, _. split; [reflexivity|left; reflexivity].
 Qed.
 
 (** every decoder function, all tables, all states: strict and warn agree up to the first problem *)
